@@ -484,7 +484,11 @@ def lines_part(chk, spec_exe, lit_exe, drv, problems):
             got = "E" + o["cb"][0].split("@")[0]
         else:
             got = "?" + x
-        by_code, by_spec = y.split("\t")
+        by_impl, by_code, by_spec = y.split("\t")
+        if by_impl != by_code and "model/parse-vs-linespec" not in reported:
+            reported.add("model/parse-vs-linespec")
+            chk.violation("model/parse-vs-linespec", "extracted impl_line and spec_line differ on %r (Version %d %s): [%s] vs [%s] (contradicts theorem spec_line_agrees)" % (
+                ln, v, m, by_impl, by_code), {"kind": "model", "line": ln}, found=False)
         if by_spec == "UB" or by_code == "UB":
             n_ub += 1
             continue
@@ -493,11 +497,17 @@ def lines_part(chk, spec_exe, lit_exe, drv, problems):
         else:
             n_ok += 1
         if got == by_spec or (got == "-" and not ln.startswith("x ") and not by_spec.startswith("E")):
+            if got != by_impl and got != "-" and "model/parse" not in reported:
+                reported.add("model/parse")
+                chk.violation("model/parse", "correspondence broken: the line %r (Version %d %s) gives [%s], the model of the _GD_Parse* functions [%s]" % (
+                    ln, v, m, got, by_impl), {"kind": "model-vs-impl", "correspondence": "C08 ParseImpl.v vs _GD_ParseFieldSpec", "line": ln}, found=False)
             continue
         ftype = ln.split()[1] if len(ln.split()) > 1 else "?"
         rep = {"kind": "spec-line-entry", "line": ln, "standards_version": v, "mode": "pedantic" if m == "P" else "permissive",
                "observed": x, "expected_by_standards": by_spec, "expected_with_translated_gates": by_code,
                "how": "printf '%sI %s\\n' | <harness/C08/spec>   (entry x dumped after X:)" % (m, (pre + ln + "\n").encode().hex())}
+        if got != by_impl and got == by_spec:
+            pass
         if got == by_code:
             # only a version gate differs: the findings of gates_part
             key = K_LINCOMN if ftype == "LINCOM" else "gate-entry/%s" % ftype
@@ -832,7 +842,7 @@ def main():
         sd = vlib.scratch("verif-c08-")
         exe, spec_exe, vf_exe, lit_exe = [shutil.copy(x, os.path.join(sd, os.path.basename(x) + "-%d" % i))
                                           for i, x in enumerate((exe, spec_exe, vf_exe, lit_exe))]
-        ok, log = vlib.coq_make(["C08/Token.vo", "C08/TokSpec.vo", "C08/Standards.vo", "Gen/Gates.vo", "C08/GatesDefs.vo", "C08/Names.vo", "C08/Literal.vo", "C08/Callback.vo", "C08/LineSpec.vo"])
+        ok, log = vlib.coq_make(["C08/Token.vo", "C08/TokSpec.vo", "C08/Standards.vo", "Gen/Gates.vo", "C08/GatesDefs.vo", "C08/Names.vo", "C08/Literal.vo", "C08/Callback.vo", "C08/LineSpec.vo", "C08/ParseImpl.vo"])
         drv = vlib.build_ocaml_driver("C08", "C08/Extract.v", "ocaml/C08/driver.ml") if ok else None
     except vlib.BuildError as e:
         chk.violation("build", "build failed: " + str(e)[:2000], {"kind": "build", "log": str(e)}, found=False)
